@@ -262,9 +262,10 @@ func Differential(c *core.Case) diffOutcome {
 	}
 	out.res, out.ref = res, refRes
 	out.diff = oracle.Equal(res, refRes, TolOf(c))
-	if out.diff != "" && res.Err == nil && refRes.Err == nil && (hasFeat(out.feats, "agg:topk") || hasFeat(out.feats, "agg:bottomk")) {
+	if out.diff != "" && (hasFeat(out.feats, "agg:topk") || hasFeat(out.feats, "agg:bottomk")) {
 		// A tie at the cut of a topk/bottomk has no defined winner; only then is a
-		// difference in the selected series not judged.
+		// difference not judged (a different selection can also make a later
+		// operator fail in one engine and not in the other).
 		if TopkAmbiguous(c, expr, st) {
 			out.diff = ""
 			out.feats = append(out.feats, "topk-tie-not-judged")
@@ -338,7 +339,7 @@ func knownDifferential(c *core.Case, query string, series []core.Series, start, 
 // shards deliver their samples).
 func equalOrTie(c *core.Case, expr parser.Expr, st *memstore.Store, a, b *oracle.Res, tol oracle.Tol) string {
 	d := oracle.Equal(a, b, tol)
-	if d == "" || a.Err != nil || b.Err != nil || expr == nil {
+	if d == "" || expr == nil {
 		return d
 	}
 	hasTopk := false
